@@ -218,6 +218,7 @@ def hist_cases(tier, rng):
     clash2 = [[0, 0, 1], [0, 1, 1]]                      # same name, two files
     clash3 = [[0, 0, 1], [0, 1, 1], [0, 0, 4]]           # ... and a module of the same name
     slash2 = [[0, 0, 1], [0, 3, 1]]                      # one file spelled src/p0.rs and src\p0.rs
+    modules2 = [[0, 0, 4], [1, 1, 4]]                    # two modules, every dependency an Import record
     def alphabet(n):
         return [["n", i] for i in range(n)] + [["d", a, b] for a in range(n) for b in range(n)] + [["r"]]
     for idents, maxlen in ((clash2, 5 if tier == "quick" else 6), (clash3, 3 if tier == "quick" else 4),
@@ -228,6 +229,19 @@ def hist_cases(tier, rng):
                 if ops[-1] != ["r"]:
                     continue
                 cases.append({"idents": idents, "ops": [list(o) for o in ops]})
+    # every kind of dependency record between every pair of node kinds, acyclic and cyclic
+    for ka in range(5):
+        for kb in range(5):
+            for dt in range(5):
+                ids = [[0, 0, ka], [1, 1, kb], [2, 2, ka]]
+                cases.append({"idents": ids, "ops": [["d", 0, 1, dt], ["d", 1, 2, dt], ["r"]]})
+                cases.append({"idents": ids, "ops": [["d", 0, 1, dt], ["d", 1, 0, dt], ["r"]]})
+                cases.append({"idents": ids, "ops": [["d", 0, 1, dt], ["d", 1, 2, (dt + 1) % 5], ["d", 2, 0, dt], ["r"]]})
+    al_m = [["n", 0], ["n", 1], ["d", 0, 1, 3], ["d", 1, 0, 3], ["r"]]
+    for L in range(1, 5):
+        for ops in itertools.product(al_m, repeat=L):
+            if ops[-1] == ["r"]:
+                cases.append({"idents": modules2, "ops": [list(o) for o in ops]})
     # every small-scope graph, built completely then resolved, with all nodes sharing one name, and with
     # nodes that differ only in how their path is spelled
     spell3 = [[0, 0, 1], [0, 3, 1], [0, 4, 1]]
@@ -257,7 +271,7 @@ def hist_cases(tier, rng):
                     if a == b:
                         continue
                     a, b = max(a, b), min(a, b)
-                ops.append(["d", a, b])
+                ops.append(["d", a, b, rng.randrange(5)])
             else:
                 ops.append(["r"])
                 if rng.random() < 0.5:
@@ -278,7 +292,7 @@ def eval_hist(cases):
             continue
         unknown = len(c["idents"]) + 1
         outs = [([[x if x >= 0 else unknown for x in r["out"]]] if r["ok"] else None) for r in o["outs"]]
-        sexps.append(sx([c["ops"], outs]))
+        sexps.append(sx([[o[:3] if o[0] == "d" else o for o in c["ops"]], outs]))
         index.append(c["id"])
     by = dict(zip(index, vlib.run_runner("c20-hist", sexps)))
     res = []
@@ -313,6 +327,12 @@ def ghist_cases(tier, rng):
             if ops[-1][0] != "s":
                 continue
             cases.append({"ops": [list(o) for o in ops]})
+    # every digraph on three names with a partially populated definitions map (subset = graph index mod 8,
+    # so every subset meets 64 graphs), all three / two of them requested
+    for gi, edges in enumerate(all_graphs(3)):
+        pre = [["td", 10 + k] for k in range(3) if gi % 8 >> k & 1]
+        deps = [["d", 10 + a, 10 + b] for a, b in edges]
+        cases.append({"ops": pre + deps + [["s", [10, 11, 12]], ["s", [10 + gi % 3, 10 + (gi + 1) % 3]]]})
     # the same small scope over a plain label and a qualified label with the same last segment
     qs = [10, 110]
     qsub = [[], [10], [110], [10, 110]]
@@ -332,6 +352,10 @@ def ghist_cases(tier, rng):
                 if rng.random() < 0.5:
                     pool.append(200 + k)
         ops = []
+        if rng.random() < 0.4:
+            # a partially populated definitions / resolved-types map (external names have no entry)
+            for k in rng.sample(pool, rng.randint(1, len(pool))):
+                ops.append(rng.choice([["td", k], ["rt", k, rng.random() < 0.5]]))
         for _ in range(rng.randint(2, 3 * n)):
             x = rng.random()
             if x < 0.5:
